@@ -29,3 +29,8 @@ func extendTyped(ov *fdo.Voucher, signer crypto.Signer, next crypto.PublicKey) (
 	}
 	return nil, fmt.Errorf("unsupported public key %T", next)
 }
+
+// ExtendWith calls ExtendVoucher with an arbitrary signer and next-owner public key.
+func ExtendWith(ov *fdo.Voucher, signer crypto.Signer, next crypto.PublicKey) (*fdo.Voucher, error) {
+	return extendTyped(ov, signer, next)
+}
